@@ -17,6 +17,9 @@ void run_history(Run &R, int maxops) {
   Sim s(c); World w(s);
   s.nodeid = (uint8_t)(1 + c.t.below(127));
   w.mandatory();
+  // odd node ids: the node is also a SYNC producer (1005h bit 30, 1006h = 1 ms): another service is re-initialised in every reset right after the parameters
+  // were reloaded - a node error the reload has raised must still be there afterwards (no time passes in these histories: no SYNC frame is ever due)
+  if (s.nodeid % 2) { add_sync(w, 0x40000080u, 1000); c.cls("node-is-sync-producer"); }
   // layout: sub-index 1 ('all') plus 1..4 groups behind the sub-indices 2.. - or, solo, a device with sub-index 1 only, which then addresses its one group
   bool solo = c.t.chance(24); int ng = solo ? 0 : 1 + (int)c.t.below(4); const int first = solo ? 0 : 1;
   std::vector<Grp> g(ng + 1);           // g[0] = the "all" entry (sub-index 1) with a 1-byte area of its own
